@@ -25,7 +25,10 @@ def gen_case(r, k, thorough):
     sg = -1 if rev else 1
     nsteps = int(r.choice([1, 2, 3, 5, 8]))
     start = 0
-    stop = sg * nsteps * DT
+    # some windows are not a whole number of time steps long: the last `tail` seconds of
+    # [start, stop) lie beyond the last step the loop performs
+    tail = int(r.choice([0, 0, 0, 0, 0, 1, DT // 2, DT - 1]))
+    stop = sg * (nsteps * DT + tail)
     continuous = bool(r.rand() < 0.4)
     freq = int(r.choice([1, 2, 3])) * DT
     # file times on the model time grid, in simulation order; in continuous mode on the frequency grid
@@ -64,7 +67,7 @@ def gen_case(r, k, thorough):
     if not has_mult:
         for row in rows:
             row.pop("mult")
-    return dict(k=k, rev=rev, nsteps=nsteps, start=start, stop=stop, continuous=continuous, freq=freq, rows=rows,
+    return dict(k=k, rev=rev, nsteps=nsteps, tail=tail, start=start, stop=stop, continuous=continuous, freq=freq, rows=rows,
                 lonlat=lonlat, extras=extras, pvar_time=pvar_time, use_names=use_names, has_mult=has_mult)
 
 
@@ -191,3 +194,25 @@ def run(ctx: Ctx):
         if bad:
             ctx.violation("failing-input", "table", small, dict(bad, theorem="Ladim.C04.released_at_step / continuous_ticks"),
                           tags=dict(first=bad["what"], rev=c["rev"], continuous=c["continuous"]))
+            continue
+        # the statement itself, without the model (discrete mode): every row whose time lies in
+        # [start, stop) yields `mult` particles at the step of its time
+        if not c["continuous"] and "error" not in g:
+            sg = -1 if c["rev"] else 1
+            expect = {}
+            for row in c["rows"]:
+                off = sg * (row["release_time"] - c["start"])
+                if 0 <= off < sg * (c["stop"] - c["start"]):
+                    expect[off // DT] = expect.get(off // DT, 0) + row.get("mult", 1)
+            have = {s_["step"]: len(s_["new"]) for s_ in g["steps"]}
+            ctx.case("window-rows", [c["k"], c["nsteps"], c.get("tail", 0), sorted(expect.items())], nontrivial=bool(expect))
+            ctx.count("window:" + ("whole steps" if not c.get("tail") else "with tail"))
+            for k_, m_ in sorted(expect.items()):
+                if have.get(k_, 0) != m_:
+                    beyond = k_ >= c["nsteps"]
+                    ctx.violation("failing-input", "window-rows", small,
+                                  dict(what="a row inside [start, stop) did not yield mult particles at its step", step=k_,
+                                       expected=m_, implementation=have.get(k_, 0), nsteps=c["nsteps"], tail_seconds=c.get("tail", 0),
+                                       theorem="Ladim.Simulation.window_rows_released (needs dt | stop - start)"),
+                                  tags=dict(first="row beyond the last step" if beyond else "row not released", tail=bool(c.get("tail")) and beyond))
+                    break
